@@ -317,7 +317,9 @@ let handle (x : sx) : sx =
         | _ -> failwith "op" in
       let s = srun t fo (List.map op_of ops) (sinit (List.map path_of_sx gs)) in
       L [L (A "genomes" :: List.map sx_path s.ss_genomes); L [A "maps"; sx_int (List.length s.ss_maps)];
-         L (A "extant" :: List.map sx_path (extant_listing t s)); L (A "ancestral" :: List.map sx_path (ancestral_listing t s))]
+         L (A "extant" :: List.map sx_path (extant_listing t s)); L (A "ancestral" :: List.map sx_path (ancestral_listing t s));
+         L (A "byname" :: List.map (fun (_, n) -> L [sx_str (sname n); sx_result sx_path (s_anc_by_name t s (sname n));
+                                                      sx_result sx_path (s_ext_by_name t s (sname n))]) (all_nodes t))]
   | L [A "consistent"; ui; t; d; L hs] ->
       (match build_taxonomy (bool_of_sx ui) (tree_of_sx t) with
        | Err e -> L [A "taxerr"; sx_err e]
